@@ -34,6 +34,16 @@ CHECKS['C03'] = dict(
     note='Trusts the reference implementation (written from the paper), sys.monitoring call records; 1e-9 relative.',
     ref='3/C03')
 
+CHECKS['C04'] = dict(
+    technique='runtime monitor: recorded Edfa crossings vs independent amplifier reference model (effective gain, '
+              'NF per model type, h.f.B.NF ASE recovered from snapshots); NF laws on gain sweeps; band-edge filter',
+    text='Each crossing of a real amplifier object (every shipped model + synthetic libraries) is compared with an '
+         'independent reference for the clamp, the total gain, p_max and the per-channel ASE; NF laws are checked on '
+         'sweeps. Exploration with situation classes (model x saturated x gain region x tilt) in the evidence.',
+    note='Trusts the reference NF models (docs + two-coil model) and the snapshots; OpenROADM NF only on uniform grids; '
+         '0.05 dB allowance for the total gain under tilt/ripple.',
+    ref='3/C04')
+
 NOT_APPLICABLE = {
 }
 
